@@ -58,6 +58,11 @@ struct TreeModel : Model {
     Model *clone() const override { return new TreeModel(*this); }
     Result apply(const Op &op) override;
     std::string dump() const override;
+    std::string full_state() const override {
+        Bytes o = unfinished ? "U;" : "F;";
+        for (auto &kv : m) { enc(o, kv.first); enc(o, kv.second); }
+        return o;
+    }
 };
 
 struct TreeWorld : World {
